@@ -774,7 +774,18 @@ it3
                     if lo <= j < hi { lemma_perm(lp, lq, hi - lo, j - lo); } else { lemma_perm(gp1, gq1, nn, j); }
                 }
                 lemma_perm_intro(gp, gq, nn);
-                assert forall|k: int| 0 <= k < nn implies #[trigger] self.rowval@[k] == rv0[gp[k]] && self.nzval@[k] == nz0[gp[k]] by {
+                assert forall|k: int| 0 <= k < nn implies #[trigger] self.rowval@[k] == rv0[gp[k]] by {
+                    if lo <= k < hi {
+                        let t = k - lo;
+                        lemma_perm(lp, lq, hi - lo, t);
+                        assert(td1[t] == td0[lp[t]]);
+                        assert(0 <= lp[t] < hi - lo);
+                        assert(td0[lp[t]] == (rsl[lp[t]], nsl[lp[t]]));
+                        assert(rvS[lo + lp[t]] == rv0[gp1[lo + lp[t]]]);
+                        assert(nzS[lo + lp[t]] == nz0[gp1[lo + lp[t]]]);
+                    } else { assert(rvS[k] == rv0[gp1[k]]); assert(nzS[k] == nz0[gp1[k]]); }
+                }
+                assert forall|k: int| 0 <= k < nn implies #[trigger] self.nzval@[k] == nz0[gp[k]] by {
                     if lo <= k < hi {
                         let t = k - lo;
                         lemma_perm(lp, lq, hi - lo, t);
@@ -802,6 +813,7 @@ it3
             }
 //@before "Ok(())"
         proof {
+            assert forall|c: int, k: int| #[trigger] in_col(*self, k, c) && k + 1 < self.colptr@[c + 1] implies self.rowval@[k] <= self.rowval@[k + 1] by { assert(in_col(A0, k, c)); }
             assert(cols_sorted_by(A0, *self, gp, gq));
             assert forall|i: int, c: int| 0 <= c < A0.n implies #[trigger] dense(*self, i, c) == dense(A0, i, c) by { lemma_sort_dense(A0, *self, gp, gq, i, c); }
             if rows_in_range(A0) { assert forall|k: int| 0 <= k < nn implies #[trigger] self.rowval@[k] < self.m by { lemma_perm(gp, gq, nn, k); assert(rv0[gp[k]] < A0.m); } }
@@ -882,7 +894,7 @@ it2
         invariant
             it2.seq().len() == n, range_from(it2.seq(), 0),
             M.n == n, M.m == M0.m, M.colptr@.len() == n + 1, M.rowval@.len() == nn, M.nzval@.len() == nn, nn <= usize::MAX,
-            nn == I@.len(), nn == J@.len(), rv0.len() == nn, nz0.len() == nn, cs == compose(J@, gp), hd == heads_cs(cs, rv0),
+            nn == I@.len(), nn == J@.len(), rv0.len() == nn, nz0.len() == nn, gp.len() == nn, gq.len() == nn, cs == compose(J@, gp), hd == heads_cs(cs, rv0),
             sorted_input(I@, J@, V@, gp, gq, rv0, nz0), cols_sorted(cs), forall|i: int| 0 <= i < cs.len() ==> #[trigger] cs[i] < n,
             readidx == cstart(cs, it2.index@ as int), writeidx == nheads(hd, readidx as int), writeidx <= readidx, readidx <= nn,
             forall|c: int| 0 <= c < it2.index@ ==> #[trigger] M.colptr@[c] == nheads(hd, cstart(cs, c + 1)) - nheads(hd, cstart(cs, c)),
@@ -914,7 +926,7 @@ it3
                 invariant
                     it3.seq().len() == nentries, range_from(it3.seq(), 0),
                     M.n == n, M.m == M0.m, M.colptr@.len() == n + 1, M.rowval@.len() == nn, M.nzval@.len() == nn, nn <= usize::MAX,
-                    nn == I@.len(), nn == J@.len(), rv0.len() == nn, nz0.len() == nn, cs == compose(J@, gp), hd == heads_cs(cs, rv0),
+                    nn == I@.len(), nn == J@.len(), rv0.len() == nn, nz0.len() == nn, gp.len() == nn, gq.len() == nn, cs == compose(J@, gp), hd == heads_cs(cs, rv0),
                     sorted_input(I@, J@, V@, gp, gq, rv0, nz0), cols_sorted(cs), forall|i: int| 0 <= i < cs.len() ==> #[trigger] cs[i] < n,
                     0 <= gc < n, col == gc, s0 == cstart(cs, gc), s1 == cstart(cs, gc + 1), 0 <= s0 <= s1 <= nn, nentries == s1 - s0,
                     s0 < s1 ==> hd[s0],
